@@ -31,6 +31,12 @@
 #include <fcppt/container/pop_back.hpp>
 #include <fcppt/container/pop_front.hpp>
 #include <fcppt/container/grid/at_optional.hpp>
+#include <fcppt/container/grid/clamped_min.hpp>
+#include <fcppt/container/grid/clamped_sup.hpp>
+#include <fcppt/container/grid/clamped_sup_signed.hpp>
+#include <fcppt/container/grid/dim.hpp>
+#include <fcppt/container/grid/pos.hpp>
+#include <fcppt/math/clamp.hpp>
 #include <fcppt/container/grid/object.hpp>
 #include <fcppt/either/object.hpp>
 #include <fcppt/enum/from_string.hpp>
@@ -235,6 +241,30 @@ void containers_one(std::size_t n, std::size_t idx)
     {
       if (fcppt::container::grid::at_optional(g, grid2::pos(hi, std::size_t{0})).has_value() || fcppt::container::grid::at_optional(g, grid2::pos(std::size_t{0}, hi)).has_value() || fcppt::container::grid::at_optional(g, grid2::pos(hi, hi)).has_value())
         fail("grid::at_optional|huge-coordinate", "a huge coordinate was accepted");
+    }
+    // the clamp helpers, also on empty grids (a size component of 0) and with positions outside
+    {
+      using spos = fcppt::container::grid::pos<std::ptrdiff_t, 2>;
+      using udim = fcppt::container::grid::dim<std::size_t, 2>;
+      for (std::ptrdiff_t x = -2; x <= static_cast<std::ptrdiff_t>(n) + 1; ++x)
+        for (std::ptrdiff_t y = -1; y <= static_cast<std::ptrdiff_t>(h) + 1; ++y)
+        {
+          auto const mn = fcppt::container::grid::clamped_min(spos(x, y));
+          auto const sp = fcppt::container::grid::clamped_sup_signed(spos(x, y), udim(n, h));
+          touch(mn);
+          touch(sp);
+          if (sp.get().x() > n || sp.get().y() > h) fail("grid::clamped_sup_signed|beyond-size", "clamped_sup_signed exceeds the size");
+          auto const us = fcppt::container::grid::clamped_sup(grid2::pos(static_cast<std::size_t>(x < 0 ? 0 : x), static_cast<std::size_t>(y < 0 ? 0 : y)), udim(n, h));
+          touch(us);
+        }
+      // clamp on one-point and empty intervals
+      for (int v = -1; v <= 1; ++v)
+      {
+        auto const one = fcppt::math::clamp(v, 0, 0);
+        if (!one.has_value()) fail("math::clamp|one-point-interval", "clamp(v, 0, 0) returned nothing");
+        else touch(one.get_unsafe());
+        if (fcppt::math::clamp(v, 1, 0).has_value()) fail("math::clamp|empty-interval", "clamp(v, 1, 0) returned a value");
+      }
     }
     grid1 g1(grid1::dim(n), 1);
     if (auto r = fcppt::container::grid::at_optional(g1, grid1::pos(idx)); r.has_value()) touch(r.get_unsafe().get());
